@@ -52,6 +52,8 @@ def items(tier, seed):
     for N in NS[tier]:
         for a in range(N + 1):
             for b in range(N + 1 - a):
+                if tier == "quick" and N >= 5 and b > a:
+                    continue          # quick tier: one of each mirror pair of compositions
                 out.append(dict(name="N%d_p%d_n%d" % (N, a, b), N=N, npos=a, nneg=b, site=False))
         if tier == "thorough" and N >= 2:
             out.append(dict(name="N%d_site" % N, N=N, npos=1, nneg=1, site=True))
